@@ -57,17 +57,33 @@ struct Fn
     C (*ref)(C z, C w, LD s);
 };
 
+// in-place twins of the field operations (and rect / proj / eq / ne, which have no accuracy to judge) are called next to the
+// out-of-place form and have to give the same bits; a mismatch is noted here and reported by case_fn
+static char const *g_twin_mismatch = nullptr;
+static inline bool same_c(a_complex a, a_complex b) { return memcmp(&a.real, &b.real, sizeof(a_real)) == 0 && memcmp(&a.imag, &b.imag, sizeof(a_real)) == 0; }
+static inline void twin_check(char const *what, a_complex got, a_complex r)
+{
+    if (!same_c(got, r) && !(got.real != got.real && r.real != r.real)) { g_twin_mismatch = what; }
+    a_complex p, q = r, c;
+    a_complex_proj(&p, r);   // finite values project onto themselves
+    a_complex_proj_(&q);
+    a_complex_rect(&c, r.real, r.imag);
+    bool fin = std::isfinite(double(r.real)) && std::isfinite(double(r.imag));
+    if (fin && (!same_c(p, r) || !same_c(q, r))) { g_twin_mismatch = "proj / proj_ of a finite value"; }
+    if (!same_c(c, r) && fin) { g_twin_mismatch = "rect"; }
+    if (fin && (!a_complex_eq(r, c) || a_complex_ne(r, c))) { g_twin_mismatch = "eq / ne on equal values"; }
+}
 #define F1(nm) [](a_complex *r, a_complex z, a_complex, a_real) { a_complex_##nm(r, z); }
 static Fn const fns[] = {
     // ---- field arithmetic
-    {"add", 0, 2, CUT_NONE, 0, [](a_complex *r, a_complex z, a_complex w, a_real) { a_complex_add(r, z, w); }, [](C z, C w, LD) { return z + w; }},
-    {"sub", 0, 2, CUT_NONE, 0, [](a_complex *r, a_complex z, a_complex w, a_real) { a_complex_sub(r, z, w); }, [](C z, C w, LD) { return z - w; }},
+    {"add", 0, 2, CUT_NONE, 0, [](a_complex *r, a_complex z, a_complex w, a_real) { a_complex_add(r, z, w); a_complex q = z; a_complex_add_(&q, w); twin_check("add_", q, *r); }, [](C z, C w, LD) { return z + w; }},
+    {"sub", 0, 2, CUT_NONE, 0, [](a_complex *r, a_complex z, a_complex w, a_real) { a_complex_sub(r, z, w); a_complex q = z; a_complex_sub_(&q, w); twin_check("sub_", q, *r); }, [](C z, C w, LD) { return z - w; }},
     {"mul", 0, 2, CUT_NONE, 0, [](a_complex *r, a_complex z, a_complex w, a_real) { a_complex_mul(r, z, w); }, [](C z, C w, LD) { return z * w; }},
     {"div", 0, 2, CUT_NONE, 0, [](a_complex *r, a_complex z, a_complex w, a_real) { a_complex_div(r, z, w); }, [](C z, C w, LD) { return z / w; }},
-    {"add_real", 0, 3, CUT_NONE, 0, [](a_complex *r, a_complex z, a_complex, a_real s) { a_complex_add_real(r, z, s); }, [](C z, C, LD s) { return z + C(s); }},
-    {"add_imag", 0, 3, CUT_NONE, 0, [](a_complex *r, a_complex z, a_complex, a_real s) { a_complex_add_imag(r, z, s); }, [](C z, C, LD s) { return z + C(0, s); }},
-    {"sub_real", 0, 3, CUT_NONE, 0, [](a_complex *r, a_complex z, a_complex, a_real s) { a_complex_sub_real(r, z, s); }, [](C z, C, LD s) { return z - C(s); }},
-    {"sub_imag", 0, 3, CUT_NONE, 0, [](a_complex *r, a_complex z, a_complex, a_real s) { a_complex_sub_imag(r, z, s); }, [](C z, C, LD s) { return z - C(0, s); }},
+    {"add_real", 0, 3, CUT_NONE, 0, [](a_complex *r, a_complex z, a_complex, a_real s) { a_complex_add_real(r, z, s); a_complex q = z; a_complex_add_real_(&q, s); twin_check("add_real_", q, *r); }, [](C z, C, LD s) { return z + C(s); }},
+    {"add_imag", 0, 3, CUT_NONE, 0, [](a_complex *r, a_complex z, a_complex, a_real s) { a_complex_add_imag(r, z, s); a_complex q = z; a_complex_add_imag_(&q, s); twin_check("add_imag_", q, *r); }, [](C z, C, LD s) { return z + C(0, s); }},
+    {"sub_real", 0, 3, CUT_NONE, 0, [](a_complex *r, a_complex z, a_complex, a_real s) { a_complex_sub_real(r, z, s); a_complex q = z; a_complex_sub_real_(&q, s); twin_check("sub_real_", q, *r); }, [](C z, C, LD s) { return z - C(s); }},
+    {"sub_imag", 0, 3, CUT_NONE, 0, [](a_complex *r, a_complex z, a_complex, a_real s) { a_complex_sub_imag(r, z, s); a_complex q = z; a_complex_sub_imag_(&q, s); twin_check("sub_imag_", q, *r); }, [](C z, C, LD s) { return z - C(0, s); }},
     {"mul_real", 0, 3, CUT_NONE, 0, [](a_complex *r, a_complex z, a_complex, a_real s) { a_complex_mul_real(r, z, s); }, [](C z, C, LD s) { return z * C(s); }},
     {"mul_imag", 0, 3, CUT_NONE, 0, [](a_complex *r, a_complex z, a_complex, a_real s) { a_complex_mul_imag(r, z, s); }, [](C z, C, LD s) { return z * C(0, s); }},
     {"div_real", 0, 3, CUT_NONE, 0, [](a_complex *r, a_complex z, a_complex, a_real s) { a_complex_div_real(r, z, s); }, [](C z, C, LD s) { return z / C(s); }},
@@ -79,8 +95,8 @@ static Fn const fns[] = {
     {"mul_", 0, 2, CUT_NONE, 0, [](a_complex *r, a_complex z, a_complex w, a_real) { *r = z; a_complex_mul_(r, w); }, [](C z, C w, LD) { return z * w; }},
     {"div_", 0, 2, CUT_NONE, 0, [](a_complex *r, a_complex z, a_complex w, a_real) { *r = z; a_complex_div_(r, w); }, [](C z, C w, LD) { return z / w; }},
     {"inv", 0, 1, CUT_NONE, 0, F1(inv), [](C z, C, LD) { return C(1) / z; }},
-    {"conj", 0, 1, CUT_NONE, 0, F1(conj), [](C z, C, LD) { return std::conj(z); }},
-    {"neg", 0, 1, CUT_NONE, 0, F1(neg), [](C z, C, LD) { return -z; }},
+    {"conj", 0, 1, CUT_NONE, 0, [](a_complex *r, a_complex z, a_complex, a_real) { a_complex_conj(r, z); a_complex q = z; a_complex_conj_(&q); twin_check("conj_", q, *r); }, [](C z, C, LD) { return std::conj(z); }},
+    {"neg", 0, 1, CUT_NONE, 0, [](a_complex *r, a_complex z, a_complex, a_real) { a_complex_neg(r, z); a_complex q = z; a_complex_neg_(&q); twin_check("neg_", q, *r); }, [](C z, C, LD) { return -z; }},
     {"polar", 0, 1, CUT_NONE, 0, [](a_complex *r, a_complex z, a_complex, a_real) { a_complex_polar(r, z.real, z.imag); }, [](C z, C, LD) { return C(z.real() * cosl(z.imag()), z.real() * sinl(z.imag())); }},
     {"abs", 0, 1, CUT_NONE, 0, [](a_complex *r, a_complex z, a_complex, a_real) { r->real = a_complex_abs(z); r->imag = 0; }, [](C z, C, LD) { return C(std::abs(z)); }},
     {"abs2", 0, 1, CUT_NONE, 0, [](a_complex *r, a_complex z, a_complex, a_real) { r->real = a_complex_abs2(z); r->imag = 0; }, [](C z, C, LD) { return C(std::norm(z)); }},
@@ -415,7 +431,9 @@ static void case_fn(Tape &t, Ctx &cx)
     }
     if (inter || inter2) { cx.rep->nontrivial = true; }
     a_complex r = {a_real(123.25), a_real(-77.5)};
+    g_twin_mismatch = nullptr;
     f.call(&r, z, w, s);
+    if (g_twin_mismatch) { cx.fail("twin:differs", "%s: the in-place / helper form %s disagrees with the out-of-place result (%.17g, %.17g)", f.name, g_twin_mismatch, double(r.real), double(r.imag)); }
     C got((LD)r.real, (LD)r.imag);
     LD k = kappa(f, Z, W, (LD)s, ref);
     // results in or below the subnormal range of the type carry absolute, not relative precision
